@@ -251,10 +251,28 @@ def theorem_names(props_file: str):
     return names
 
 
+def import_closure(modules, extra_files=()):
+    """Project-local Lean files reachable through `import` from the given modules / files."""
+    seen, todo = set(), []
+    for m in modules:
+        todo.append(os.path.join(LEAN_DIR, *m.split(".")) + ".lean")
+    todo += [os.path.join(LEAN_DIR, f) for f in extra_files]
+    while todo:
+        p = todo.pop()
+        if p in seen or not os.path.exists(p):
+            continue
+        seen.add(p)
+        for m in re.findall(r"^\s*import\s+(\S+)", open(p).read(), flags=re.M):
+            if m.split(".")[0] in ("FDAModel", "FDAProofs"):
+                todo.append(os.path.join(LEAN_DIR, *m.split(".")) + ".lean")
+    return sorted(seen)
+
+
 def banned_tokens(paths):
     hits = []
     for root in paths:
-        for dp, _, fs in os.walk(root):
+        walker = [(os.path.dirname(root), [], [os.path.basename(root)])] if os.path.isfile(root) else os.walk(root)
+        for dp, _, fs in walker:
             if ".lake" in dp:
                 continue
             for f in fs:
@@ -270,7 +288,7 @@ def banned_tokens(paths):
     return hits
 
 
-def prove(prop: str, modules, extra_props_files=()):
+def prove(prop: str, modules, extra_props_files=(), driver=None):
     """Build the property's Lean modules and audit the axioms of its theorems.
 
     Returns dict(ok, obligations, discharged, failed, log, wall_s, checker_cmd).
@@ -316,7 +334,9 @@ def prove(prop: str, modules, extra_props_files=()):
             res["failed"].append(f"{n}: no axiom report (missing or failed)")
     if rc != 0:
         res["failed"].append("audit file failed to elaborate: " + (out + err)[-800:])
-    hits = banned_tokens([os.path.join(LEAN_DIR, "FDAModel"), os.path.join(LEAN_DIR, "FDAProofs"), os.path.join(LEAN_DIR, "Drivers")])
+    # only the sources this property depends on (its modules, their project-local imports, its driver)
+    hits = banned_tokens(import_closure(modules, [driver] if driver else []))
+    res["sources_audited"] = [os.path.relpath(p, LEAN_DIR) for p in import_closure(modules, [driver] if driver else [])]
     for h in hits:
         res["failed"].append("banned token: " + h)
     res["discharged"] = len([n for n in names if n in ok_names]) if not hits else 0
